@@ -46,14 +46,17 @@ def class_name(cls, al):
     return ("Alignment" if al else "") + cls
 
 
-def build(o):
-    """Real object for a pool record of the specification."""
+def build(o, int_dtype=False):
+    """Real object for a pool record of the specification.  int_dtype: parameters that are whole numbers are handed over as
+    INTEGER arrays (a transform built from an integer matrix is the same transform)."""
     mt, _ = _mt()
     from menpo.shape import PointCloud
 
     cls, al = o["cls"], o["al"]
     M = L.mat(o["M"])
     d = M.shape[0] - 1
+    if int_dtype and not al and cls != "Opaque" and np.array_equal(M, np.round(M)):
+        M = M.astype(np.int64)
     if cls == "Opaque":
         return opaque_class()(M)
     if al:
@@ -118,7 +121,8 @@ class World:
     """Real objects mirroring the model's `tr`, with the model's expected effective maps.
     Pool objects are built lazily (an object never touched is trivially unchanged)."""
 
-    def __init__(self, pool, pts):
+    def __init__(self, pool, pts, int_dtype=False):
+        self.int_dtype = int_dtype
         self.pool = pool
         self.objs = [None] * (len(pool) + 1)
         self.meta = [None] + [dict(cls=o["cls"], al=o["al"]) for o in pool]
@@ -131,7 +135,7 @@ class World:
     def get(self, i):
         """object i, built on first use (and then checked against the specification's pool entry)"""
         if self.objs[i] is None:
-            self.objs[i] = build(self.pool[i - 1])
+            self.objs[i] = build(self.pool[i - 1], self.int_dtype)
             bad = self._check_obj(i)
             if bad and self.init_bad is None:
                 self.init_bad = dict(step="init", obj=i, **bad)
@@ -263,8 +267,8 @@ class World:
         return None, notes
 
 
-def replay(pool, pts, hist, full_init=False):
-    w = World(pool, pts)
+def replay(pool, pts, hist, full_init=False, int_dtype=False):
+    w = World(pool, pts, int_dtype)
     if full_init:
         bad = w.check_initial()
         if bad:
